@@ -113,6 +113,10 @@ def gen(seed, run, tier='quick'):
         'grem': rng.choice([0, 1, 2]),
         # registries of types DERIVED from Money / from the generic type:
         # their own, whatever the parent has registered
+        # a second generic type that shares table converters with the first
+        # (one TableConverter object may serve several types)
+        'hreg': rng.choice([0, 0, 1, 2]),
+        'hrem': rng.choice([0, 0, 1]),
         'subreg': rng.choice([0, 0, 1, 2]),
         'subrem': rng.choice([0, 0, 1]),
     }
@@ -226,6 +230,11 @@ def gen(seed, run, tier='quick'):
             toks.append(['greg', rng.randrange(n_g)])
         elif k == 'grem':
             toks.append(['grem', rng.randrange(n_g)])
+        elif k in ('hreg', 'hrem'):
+            tabs = [j for j, g in enumerate(gconvs)
+                    if g['kind'] in ('table', 'subtable')]
+            if tabs:
+                toks.append([k, rng.choice(tabs)])
         elif k in ('subreg', 'subrem'):
             which = rng.randrange(2)
             toks.append([k, which, rng.randrange(n_mc if which else n_g)])
@@ -267,7 +276,7 @@ def shrink_args(h):
 # execution inside a world
 
 THREADABLE = ('reg', 'rem', 'regtmp', 'remtop', 'regbad', 'greg', 'grem',
-              'subreg', 'subrem')
+              'subreg', 'subrem', 'hreg', 'hrem')
 HANG_S = 3.0
 
 
@@ -359,6 +368,8 @@ def execute(h):
     mconvs = [build_mconv(spec) for spec in cfg['mconvs']]
     G = QuantityMeta('G', (Quantity,), {})
     gunits = [G.new_unit(f'g{i}') for i in range(3)]
+    H = QuantityMeta('H', (Quantity,), {})
+    hunits = [H.new_unit(f'h{i}') for i in range(3)]
 
     class Stub:
         def __init__(self, idx, table):
@@ -398,16 +409,18 @@ def execute(h):
     gconvs = []
     for k, spec in enumerate(cfg['gconvs']):
         if spec['kind'] == 'table':
-            tab = {(gunits[int(key[0])], gunits[int(key[1])]):
+            tab = {(us[int(key[0])], us[int(key[1])]):
                    (_frac(e[1]), _frac(e[2]))
+                   for us in (gunits, hunits)
                    for key, e in sorted(spec['table'].items())}
             # the table as mapping, or as list of 4-tuples
             gconvs.append(TableConverter(
                 tab if k % 2 else [(u1, u2, f, o)
                                    for (u1, u2), (f, o) in tab.items()]))
         elif spec['kind'] == 'subtable':
-            tab = {(gunits[int(key[0])], gunits[int(key[1])]):
+            tab = {(us[int(key[0])], us[int(key[1])]):
                    (_frac(e[1]), _frac(e[2]))
+                   for us in (gunits, hunits)
                    for key, e in sorted(spec['table'].items())}
             declined = set()
             for key, e in spec['table'].items():
@@ -421,8 +434,8 @@ def execute(h):
             class RangeTable(TableConverter):
                 """valid for part of what its table covers"""
                 def __call__(self, qty, to_unit, _declined=declined):
-                    if (gunits.index(qty.unit),
-                            gunits.index(to_unit)) in _declined:
+                    us = gunits if qty.unit in gunits else hunits
+                    if (us.index(qty.unit), us.index(to_unit)) in _declined:
                         return None
                     return super().__call__(qty, to_unit)
             gconvs.append(RangeTable(tab))
@@ -439,6 +452,8 @@ def execute(h):
     # answering 0 has answered)
     money_sets = [moneys, [Money(0, c) for c in curs]]
     gq_sets = [gq, [G(0, u) for u in gunits]]
+    hq_sets = [[H(_frac(cfg['gamount']), u) for u in hunits],
+               [H(0, u) for u in hunits]]
     pairs = [(a, b, k) for k in (0, 1) for a in range(n_cur)
              for b in range(n_cur) if a != b]
     gpairs = [(a, b, k) for k in (0, 1) for a in range(3) for b in range(3)
@@ -483,6 +498,10 @@ def execute(h):
     ganswers = [{p: safely(gdirect, gc, *p) for p in gpairs}
                 for gc in gconvs]
 
+    # the second type uses the same tables with the same amounts: what a
+    # table answers there is what it answers for the first type
+    hanswers = ganswers
+
     def gref(i):
         g = gconvs[i]
         return g.get() if isinstance(g, _Method) else g
@@ -500,6 +519,7 @@ def execute(h):
     # ---- model
     mstack = []     # indices into mconvs, bottom .. top
     glist = []      # indices into gconvs, registration order
+    hlist = []      # the same for H (table converters only)
     sub_g = []      # the same for SubG ...
     sub_m = []      # ... and SubMoney
 
@@ -630,7 +650,7 @@ def execute(h):
                     expected=[list(reversed(sub_g)), list(reversed(sub_m))],
                     observed=[len(obs_sg), len(obs_sm)])
         vec = []
-        key_at_start = (tuple(mstack), tuple(glist))
+        key_at_start = (tuple(mstack), tuple(glist), tuple(hlist))
         # --- money conversions, every ordered pair
         for p in pairs:
             a, b, k = p
@@ -754,9 +774,32 @@ def execute(h):
                 violate('generic_convert', 'value', step, pair=list(p),
                         expected=list(e), observed=list(o),
                         model_list=list(glist), answered_by=who)
+        # --- the second generic type: its own list, although the
+        # converter objects are shared with G
+        obs_h = list(H.registered_converters())
+        if len(obs_h) != len(hlist) or any(
+                x is not gconvs[i] for x, i in zip(obs_h, reversed(hlist))):
+            violate('generic_list', 'second_type', step,
+                    expected=list(reversed(hlist)), observed=len(obs_h))
+        for p in gpairs if hlist else ():
+            a, b, k = p
+            o = observe(lambda: _num(
+                hq_sets[k][a].convert(hunits[b]).amount))
+            vec.append(o)
+            e = ('exc', 'UnitConversionError')
+            for gi in reversed(hlist):
+                ans = hanswers[gi][p]
+                if ans[0] == 'none':
+                    continue
+                e = ans if ans[0] == 'ok' else ('unjudged',)
+                break
+            if e[0] != 'unjudged' and o != e:
+                violate('generic_convert', 'second_type', step, pair=list(p),
+                        expected=list(e), observed=list(o),
+                        model_list=list(hlist))
         # --- same registrations => same behaviour (restoration); a sweep
         # during which a converter retired spans two states and is skipped
-        key = (tuple(mstack), tuple(glist))
+        key = (tuple(mstack), tuple(glist), tuple(hlist))
         if key != key_at_start:
             return vec
         prev = seen_by_state.get(key)
@@ -863,6 +906,24 @@ def execute(h):
                 if o[0] == 'ok':
                     violate('generic_remove', 'absent_accepted', i, conv=g)
             after(i, o[0])
+        elif op in ('hreg', 'hrem'):
+            g = t[1] % len(gconvs)
+            if cfg['gconvs'][g]['kind'] not in ('table', 'subtable'):
+                after(i, 'not-a-table')
+            elif op == 'hreg':
+                H.register_converter(gconvs[g])
+                if g not in hlist:
+                    hlist.append(g)
+                bump(probes, 'converter_shared_between_two_types')
+                after(i, 'ok')
+            else:
+                o = observe(lambda: H.remove_converter(gconvs[g]))
+                if (g in hlist) != (o[0] == 'ok'):
+                    violate('generic_remove', 'second_type', i, conv=g,
+                            observed=list(o))
+                if g in hlist:
+                    hlist.remove(g)
+                after(i, o[0])
         elif op == 'subreg':
             bump(probes, 'converter_registered_on_a_derived_type')
             if t[1] % 2:
@@ -1058,8 +1119,8 @@ def execute(h):
             'reach': {'prefix4': [syms[:2 * k] for k in range(1, 5)
                                   if len(toks) >= k],
                       'model_states': [core.digest(k) for k in
-                                       [[list(a), list(b)]
-                                        for a, b in seen_by_state]][:40]},
+                                       [[list(x) for x in key_]
+                                        for key_ in seen_by_state]][:40]},
             'log': log if h.get('want_log') else None}
 
 
@@ -1084,6 +1145,8 @@ def _sym(t):
         return {'greg': 'g', 'grem': 'x'}[op] + str(t[1] % 3)
     if op in ('subreg', 'subrem'):
         return {'subreg': 's', 'subrem': 'z'}[op] + str(t[1] % 2)
+    if op in ('hreg', 'hrem'):
+        return {'hreg': 'h', 'hrem': 'y'}[op] + str(t[1] % 3)
     if op == 'thread':
         return 't.'
     return '??'
